@@ -1,6 +1,6 @@
 """Property -> rules."""
 
-from . import rules_rta, rules_fp
+from . import rules_rta, rules_fp, rules_sib, rules_ros2
 from .rta_model import ANALYSES
 
 FP = [p for p in ANALYSES if p.startswith('fixed_priority::')]
@@ -89,7 +89,78 @@ def c08(ctx, rep):
             'Does NOT decide leastness for a given numeric workload.')
 
 
+def c19(ctx, rep):
+    crate = ctx.crate('dbg')
+    for a in COMMON_ASSUMPTIONS[:3]:
+        rep.assume(a)
+    rep.rule('SIB', 'equations recovered from two sibling entry points are identical canonical terms after substituting '
+                    'the special-case parameter values named by the property (LP last:=1,B:=0 = P; LP last:=C = NP; '
+                    'LP last:=1 = FNP; EDF likewise with all segments 1 resp. = WCET)')
+    rep.rule('PARAM', 'every ROS 2 entry point takes its supply as a type parameter bounded by SupplyBound only and uses '
+                      'the value only through provided_service/service_time or as the supply argument of search*')
+    n = rules_sib.check_reductions(rep, crate)
+    rep.floor('analysis records', n, 8)
+    k = rules_sib.check_supply_parametric(rep, crate)
+    rep.floor('ROS 2 entry points', k, 7)
+    rep.floor('rule instances', len(rep.instances), 30)
+    rep.assume('numeric agreements named by the property (Periodic supply with budget = period equals Dedicated as '
+               'functions; largest NP-EDF bound = FIFO bound; event source = FIFO) are NOT decided: they are facts '
+               'about values, not about code shape')
+    return ('Static sibling comparison: the busy-window equation, per-offset equation, result extraction and search '
+            'space of each FP/EDF entry point are recovered as canonical terms; each reduction named by C19 is decided as '
+            'a term identity under substitution, for all inputs. For the ROS 2 analyses supply-parametricity is decided '
+            'from the type-checked signatures and the uses of the supply value. Does NOT decide the numeric agreements '
+            '(supply equivalences as functions, NP-EDF max = FIFO, event source = FIFO).')
+
+
+ROS2_RULES = {
+    'SPEC-BW': 'busy-window right-hand side recovered by flow, compared with Lemma 6 of ECRTS\'19',
+    'SPEC-OFF': 'per-offset right-hand side compared with Lemmas 1, 3, 4/5, 8 (own demand at A+1, interference window A+1+(r -. w))',
+    'SPEC-RHS': 'rhs of the S* / max-offset searches compared with Defs 1,2,3,5 and Lemma 18 of RTSS\'21',
+    'SPEC-RES': 'result expression compared with Thm 2 / Thm 3 (service_time(sbf(S*) -. 1 + marginal cost), -t_a only for singleton subchains)',
+    'COUPLE': 'the same offset reaches search_with_offset and the right-hand side',
+    'SPACE': 'search space: source of the steps, shift, bound, stages (Lemma 7 / Lemma 19)',
+    'PLUMB': 'the supply parameter (and no other supply) reaches every search', 'LIM': 'limit passed unmodified',
+    'ERR': 'search results consumed by `?` or handed to max_response_time',
+    'COMBINE': 'per-offset results combined by max_response_time',
+    'PRIO': 'priority order function is a < b and its arguments are (interfering, interfered-with)',
+    'KIND': 'writer/reader agreement between is_pp and the kinds capped by the busy-window bound',
+}
+
+
+def ros2_prop(which, mode, prop, floor):
+    def run(ctx, rep):
+        dbg = ctx.crate('dbg')
+        rel = ctx.crate('rel')
+        for rid, text in ROS2_RULES.items():
+            rep.rule(rid, text)
+        for a in COMMON_ASSUMPTIONS[:3]:
+            rep.assume(a)
+        rep.assume('the equation tables in sa/rules_ros2.py transcribe Casini et al. ECRTS\'19 and Blass et al. RTSS\'21; '
+                   'that they bound real executor behaviour is the papers\' theorem and is not decided here')
+        n = 0
+        if 'ecrts19' in which:
+            n += rules_ros2.check_ecrts19(rep, dbg, mode)
+        if 'rr' in which:
+            n += rules_ros2.check_rr(rep, dbg, mode)
+        if 'bw' in which:
+            n += rules_ros2.check_bw(rep, rel, mode, 'rel')
+            n += rules_ros2.check_bw(rep, dbg, mode, 'dbg')
+            rules_ros2.check_kind_table_agreement(rep, dbg)
+        rep.floor('analysis entry points', n, {'ecrts19': 4, 'rr': 1, 'bw': 2}.get(which[0], 0) if len(which) == 1 else sum({'ecrts19': 4, 'rr': 1, 'bw': 2}[w] for w in which))
+        rep.floor('rule instances', len(rep.instances), floor)
+        return (f'Static analysis of the type-checked HIR: the right-hand sides, result expressions and search spaces of the '
+                f'ROS 2 analyses are recovered by flow as canonical terms and compared with the papers\' definitions. '
+                f'Mode: {rules_rta.MODE_TEXT[mode]}. Decides structural clauses necessary for {prop} for all inputs; does '
+                f'NOT decide that the definitions bound real executor schedules, nor the supply-bound inverse (C09).')
+    return run
+
+
 PROPS = {
+    'C04': ros2_prop(['ecrts19'], 'safe', 'C04', 40),
+    'C05': ros2_prop(['rr', 'bw'], 'safe', 'C05', 25),
+    'C07': ros2_prop(['ecrts19', 'rr', 'bw'], 'exact', 'C07', 65),
+    'C19': c19,
     'C08': c08,
     'C01': rta_prop(FP, 'safe', 'C01', 40,
                     'the four FP analyses implement BW, OFF_A, the run-to-completion bookkeeping, the result '
